@@ -231,6 +231,9 @@ func (c *simCluster) close() {
 		if n.up {
 			n.kill()
 		}
+		if n.gate != nil {
+			n.gate.open()
+		}
 	}
 	for _, rpc := range c.rpcs {
 		if rpc.conn != nil {
@@ -308,6 +311,9 @@ func (c *simCluster) onHook(point string, args ...interface{}) {
 	switch point {
 	case "vote.send":
 		r := args[0].(*Raft)
+		if n := c.nodes[r.nid]; n == nil || n.r != r {
+			return
+		}
 		req := args[2].(*voteReq)
 		rpc := &simRPC{kind: "vote", from: r.nid, to: args[1].(uint64), term: req.term, transfer: req.transfer,
 			lastIdx: req.lastLogIndex, lastTerm: req.lastLogTerm, ch: args[3].(chan rpcResponse)}
@@ -321,6 +327,9 @@ func (c *simCluster) onHook(point string, args ...interface{}) {
 		c.rpcs = append(c.rpcs, rpc)
 	case "timeoutNow.send":
 		r := args[0].(*Raft)
+		if n := c.nodes[r.nid]; n == nil || n.r != r {
+			return
+		}
 		req := args[2].(*timeoutNowReq)
 		rpc := &simRPC{kind: "timeoutNow", from: r.nid, to: args[1].(uint64), term: req.term, ch: args[3].(chan rpcResponse)}
 		if n := c.nodes[r.nid]; n != nil {
@@ -370,22 +379,30 @@ func (c *simCluster) hookNode(args ...interface{}) (uint64, bool) {
 	if len(args) == 0 {
 		return 0, false
 	}
-	switch v := args[0].(type) {
-	case *Raft:
-		return v.nid, true
-	case *storage:
-		return v.nid, true
-	case *value:
-		for id, n := range c.nodes {
+	// match by object identity: goroutines left over from an earlier run must not be taken for nodes of this one
+	for id, n := range c.nodes {
+		if n.r == nil {
+			continue
+		}
+		switch v := args[0].(type) {
+		case *Raft:
+			if n.r == v {
+				return id, true
+			}
+		case *storage:
+			if n.r.storage == v {
+				return id, true
+			}
+		case *value:
 			if n.dir == v.dir {
 				return id, true
 			}
-		}
-	case *stateMachine:
-		return v.id, true
-	case *snapshots:
-		for id, n := range c.nodes {
-			if filepath.Dir(v.dir) == n.dir {
+		case *stateMachine:
+			if n.r.fsm == v {
+				return id, true
+			}
+		case *snapshots:
+			if n.r.snaps == v {
 				return id, true
 			}
 		}
